@@ -360,31 +360,42 @@ CLAUSES = [
 ]
 
 
-def _one_directional_max(case):
-    A = R.case_matrix(case["mat"]).astype(float)
-    m = (A > 0) & (A.T == 0) & ~np.eye(len(A), dtype=bool)
-    return float(A[m].max()) if m.any() else 0.0
+ILL_COND_RANGE = 1e13
+
+
+def flow_dynamic_range(case, iters=3000):
+    """max / min of the flows pi_i T_ij over the support of C + C^T, for the reversible ML estimate computed by the
+    independent reference iteration (vf.ref_msm.ref_mle_fixed_point, <= `iters` sweeps).  Pure function of the case."""
+    B = R.case_matrix(case["mat"]).astype(float)
+    T, pi, _ = R.ref_mle_fixed_point(B, max_iter=iters)
+    F = (pi[:, None] * T)[(B + B.T) > 0]
+    return float(F.max() / max(F.min(), 1e-320))
 
 
 def match_mle_roundoff_breakdown(case, exc):
-    """Known finding: on strongly connected matrices with large one-directional counts (c_ij >= 20, c_ji = 0, n >= 5)
-    the populations of some states shrink by > 16 orders of magnitude; the incrementally updated row sums then go
-    (slightly) negative and the iteration dies in its own `assert c <= 0` (or ends with NaN rows).  Only that
-    AssertionError inside the estimator is matched - any oracle Violation, TypeError, ValueError ... is still reported."""
+    """Known finding: when the ML flows pi_i T_ij span more than 13 decades (large one-directional counts: c_ij >> 0,
+    c_ji = 0 along a cycle; ~0.4 % of the generated matrices) the estimator's running row sums keep the absolute
+    rounding error of their much larger starting values.  Symptoms: the iteration dies in its own `assert c <= 0` or
+    ends with NaN rows; or it returns, without a warning, an observed transition at probability exactly 0, a spurious
+    1e-16 entry, or populations that are inconsistent with T.  Matched: an AssertionError raised inside the estimator
+    loop / final normalisation, or an oracle Violation, on such an ill-conditioned case only.  TypeError, ValueError
+    and every failure on a well-conditioned case are still reported."""
     import traceback
-    if type(exc) is not AssertionError:
+    if type(exc).__name__ == "Violation":
+        pass
+    elif type(exc) is AssertionError:
+        frames = [fr for fr in traceback.extract_tb(exc.__traceback__) if "/enspara/" in fr.filename or
+                  fr.filename.endswith("libmsm.pyx")]
+        if not frames or frames[-1].name.split(".")[-1] not in ("_mle_prinz_dense", "_prinz_mle_py"):
+            return False
+        last, msg = frames[-1], str(exc)
+        if last.name.endswith("_prinz_mle_py") and (last.line or "").strip() != "assert c <= 0" and "nan" not in msg:
+            return False
+        if msg and "nan" not in msg:
+            return False
+    else:
         return False
-    frames = [fr for fr in traceback.extract_tb(exc.__traceback__) if "/enspara/" in fr.filename or
-              fr.filename.endswith("libmsm.pyx")]
-    if not frames or frames[-1].name.split(".")[-1] not in ("_mle_prinz_dense", "_prinz_mle_py"):
-        return False
-    last = frames[-1]
-    msg = str(exc)
-    if last.name.endswith("_prinz_mle_py") and (last.line or "").strip() != "assert c <= 0" and "nan" not in msg:
-        return False
-    if msg and "nan" not in msg:
-        return False
-    return case["mat"]["n"] >= 5 and _one_directional_max(case) >= 20
+    return flow_dynamic_range(case) > ILL_COND_RANGE
 
 
 MATCHERS = {"mle_roundoff_breakdown": match_mle_roundoff_breakdown}
